@@ -223,6 +223,9 @@ def _date_cell(S, cell, ts, what):
         S.expect(len(parts) == 1 and type(parts[0]).__name__ == "TsFmt", "C14", "date-cell", what)
         S.expect(parts[0].dt == ts and parts[0].dt.utcoffset() == ts.utcoffset(), "C14", "date-cell", "%s: date of another instant" % what)
         S.expect(parts[0].fmt in ("%m/%d/%Y", "%Y/%m/%d", "%Y-%m-%d", "%d/%m/%Y"), "C14", "date-cell", "%s: format %r" % (what, parts[0].fmt))
+    elif hasattr(ts, "us"):
+        # symbolic run: a date cell must be the rendering of that symbolic timestamp, never plain text
+        S.fail("C14", "date-cell", "%s: %r" % (what, cell))
     else:
         S.expect(isinstance(cell, str) and cell in (ts.strftime("%m/%d/%Y"), ts.strftime("%Y/%m/%d"), ts.strftime("%Y-%m-%d"), ts.strftime("%d/%m/%Y")), "C14", "date-cell", "%s: %r" % (what, cell))
 
